@@ -258,12 +258,12 @@ Proof.
       * change (clean (VyExec :: ?l)) with (clean l).
         cbn [clean forallb forbidden negb andb].
         fold (clean (match sc_run s with
-                     | RunOk body => body_trace m body ++ (if sc_implicit s then match sc_final s with Some v => print_trace m v | None => [Raise] end else [])
+                     | RunOk body => body_trace m body ++ (if sc_implicit s then match sc_final s with Some v => print_trace m v | None => capture m end else [])
                      | RunRaises body => body_trace m body ++ capture m end)).
         destruct (sc_run s) as [body | body] eqn:Er.
         -- rewrite clean_app, (clean_body m body Hm). simpl.
            destruct (sc_implicit s) eqn:Ei; [|reflexivity].
-           destruct (sc_final s) as [v|] eqn:Ef; [exact (clean_print m v Hm) | reflexivity].
+           destruct (sc_final s) as [v|] eqn:Ef; [exact (clean_print m v Hm) | exact (clean_capture m Hm)].
         -- rewrite clean_app, (clean_body m body Hm), (clean_capture m Hm). reflexivity.
     + exact (clean_capture m Hm).
 Qed.
@@ -294,8 +294,8 @@ Example offline_is_not_clean :
     = [OnlineOut; OnlineOut; OnlineOut; OnlineOut; OnlineOut; OnlineOut; OnlineOut].
 Proof. repeat split; reflexivity. Qed.
 
-(* error capture: with a final value that prints (or no implicit output), an online run
-   never raises, and a failing transpile / a raising body ends in ErrRecord; Exit *)
+(* error capture: an online run never raises; a failing transpile, a raising body and a
+   final value whose printing raises all end in ErrRecord; Exit *)
 Definition no_raise (l : list effect) : bool := forallb (fun e => negb (is_raise e)) l.
 
 Lemma no_raise_app a b : no_raise (a ++ b) = no_raise a && no_raise b.
@@ -332,59 +332,59 @@ Proof.
   unfold vy_eval_trace. destruct (online m); reflexivity.
 Qed.
 
-Definition final_prints (s : scenario) : bool :=
-  negb (sc_implicit s) || match sc_final s with Some _ => true | None => false end
-  || match sc_run s with RunRaises _ => true | RunOk _ => false end
-  || negb (sc_transpile_ok s).
+Lemma no_raise_capture m : online m = true -> no_raise (capture m) = true.
+Proof. intro Hm. unfold capture. rewrite Hm. reflexivity. Qed.
 
-Lemma execute_errors_recorded : forall m s, online m = true -> final_prints s = true ->
+(* full strength: in online mode no exception leaves execute_vyxal, whatever the inputs,
+   flags, body, transpile outcome and final value are *)
+Lemma execute_errors_recorded : forall m s, online m = true ->
   no_raise (execute_trace m s) = true.
 Proof.
-  intros m s Hm Hf. unfold execute_trace. rewrite no_raise_app. apply andb_true_iff. split.
+  intros m s Hm. unfold execute_trace. rewrite no_raise_app. apply andb_true_iff. split.
   - destruct (sc_all_strings s); [reflexivity | exact (no_raise_inputs m _)].
-  - unfold final_prints in Hf.
-    destruct (sc_transpile_ok s) eqn:Et; simpl negb; cbv iota.
+  - destruct (sc_transpile_ok s) eqn:Et; simpl negb; cbv iota.
     + rewrite no_raise_app. apply andb_true_iff. split.
       * destruct (sc_show_code s); [rewrite Hm|]; reflexivity.
       * cbn [no_raise forallb is_raise negb andb].
         fold (no_raise (match sc_run s with
-                     | RunOk body => body_trace m body ++ (if sc_implicit s then match sc_final s with Some v => print_trace m v | None => [Raise] end else [])
+                     | RunOk body => body_trace m body ++ (if sc_implicit s then match sc_final s with Some v => print_trace m v | None => capture m end else [])
                      | RunRaises body => body_trace m body ++ capture m end)).
         destruct (sc_run s) as [body | body] eqn:Er.
         -- rewrite no_raise_app, (no_raise_body m body). simpl.
            destruct (sc_implicit s) eqn:Ei; [|reflexivity].
-           destruct (sc_final s) as [v|] eqn:Ef; [exact (no_raise_print m v) | simpl in Hf; discriminate].
-        -- rewrite no_raise_app, (no_raise_body m body). unfold capture. rewrite Hm. reflexivity.
-    + unfold capture. rewrite Hm. reflexivity.
+           destruct (sc_final s) as [v|] eqn:Ef; [exact (no_raise_print m v) | exact (no_raise_capture m Hm)].
+        -- rewrite no_raise_app, (no_raise_body m body), (no_raise_capture m Hm). reflexivity.
+    + exact (no_raise_capture m Hm).
 Qed.
 
+(* ... and every failure -- transpile, body, or the final value's printing -- ends the
+   trace with the error record followed by the exit *)
 Lemma execute_capture_tail : forall m s, online m = true ->
-  (sc_transpile_ok s = false \/ exists b, sc_transpile_ok s = true /\ sc_run s = RunRaises b) ->
+  (sc_transpile_ok s = false
+   \/ (exists b, sc_transpile_ok s = true /\ sc_run s = RunRaises b)
+   \/ (exists b, sc_transpile_ok s = true /\ sc_run s = RunOk b /\ sc_implicit s = true /\ sc_final s = None)) ->
   exists pre, execute_trace m s = pre ++ [ErrRecord; Exit].
 Proof.
-  intros m s Hm [Ht | [b [Ht Hr]]]; unfold execute_trace; rewrite Ht; simpl negb; cbv iota.
+  intros m s Hm [Ht | [[b [Ht Hr]] | [b [Ht [Hr [Hi Hf]]]]]]; unfold execute_trace; rewrite Ht; simpl negb; cbv iota.
   - unfold capture. rewrite Hm. eexists. reflexivity.
   - rewrite Hr. unfold capture. rewrite Hm.
     eexists. rewrite app_assoc.
     change (VyExec :: body_trace m b ++ [ErrRecord; Exit]) with ((VyExec :: body_trace m b) ++ [ErrRecord; Exit]).
     rewrite !app_assoc. reflexivity.
+  - rewrite Hr, Hi, Hf. unfold capture. rewrite Hm.
+    eexists. rewrite app_assoc.
+    change (VyExec :: body_trace m b ++ [ErrRecord; Exit]) with ((VyExec :: body_trace m b) ++ [ErrRecord; Exit]).
+    rewrite !app_assoc. reflexivity.
 Qed.
 
-(* F14: the implicit output is outside the try: when printing the final value raises,
-   the exception propagates in online mode too.  The unrestricted claim is refuted. *)
-Definition f14_witness : scenario :=
+(* non-vacuity: the same scenarios DO raise offline; online they end in ErrRecord; Exit *)
+Definition final_raises_witness : scenario :=
   {| sc_inputs := []; sc_all_strings := false; sc_transpile_ok := true; sc_show_code := false;
-     sc_run := RunOk []; sc_flag_O := false; sc_flag_o := false; sc_final := None |}.
-
-Lemma errors_always_recorded_refuted :
-  exists s, no_raise (execute_trace {| online := true |} s) = false.
-Proof. exists f14_witness. reflexivity. Qed.
+     sc_run := RunOk [BPrint PScalar]; sc_flag_O := false; sc_flag_o := true; sc_final := None |}.
 
 Example errors_recorded_nonvacuous :
-  final_prints {| sc_inputs := [{| is_literal := false; is_evaluable := true |}]; sc_all_strings := false;
-                  sc_transpile_ok := true; sc_show_code := true;
-                  sc_run := RunRaises [BPrint PScalar; BEval {| is_literal := false; is_evaluable := true |}; BCall TString];
-                  sc_flag_O := false; sc_flag_o := true; sc_final := None |} = true /\
+  no_raise (execute_trace {| online := false |} final_raises_witness) = false /\
+  execute_trace {| online := true |} final_raises_witness = [VyExec; OnlineOut; ErrRecord; Exit] /\
   execute_trace {| online := true |}
      {| sc_inputs := [{| is_literal := false; is_evaluable := true |}]; sc_all_strings := false;
         sc_transpile_ok := true; sc_show_code := true;
